@@ -29,3 +29,325 @@ Theorem C15_pruning_split_dependent_refuted :
   exists xs : list (item Z),
     run_tree Z Z.ltb (Leaf _ xs) = Some 10 /\ run_tree Z Z.ltb (Node _ (Leaf _ (firstn 1 xs)) (Leaf _ (skipn 1 xs))) = Some 5.
 Proof. exact pruning_split_dependent. Qed.
+
+(* ============================================================================================================================
+   Second batch: the shapes the code really uses (Model/Reduce2.v, Proofs/Reduce2P.v)
+   ============================================================================================================================ *)
+From VRP Require Import Model.CostOrder Model.Core Model.Reduce2 Proofs.Reduce2P.
+From Coq Require Import Permutation.
+
+(* ---------- rosomaxa/src/utils/parallel.rs ---------- *)
+(* cartesian_product(routes, jobs) is the row-major list of pairs *)
+Theorem C15_cartesian_product_members : forall (T U : Type) (xs : list T) (ys : list U) a b,
+  In (a, b) (cartesian_product xs ys) <-> In a xs /\ In b ys.
+Proof. exact (@in_cartesian_product). Qed.
+
+Theorem C15_cartesian_product_row_major : forall (T U : Type) (xs : list T) (ys : list U) i k da db,
+  (i < length xs)%nat -> (k < length ys)%nat ->
+  nth (i * length ys + k) (cartesian_product xs ys) (da, db) = (nth i xs da, nth k ys db).
+Proof. exact (@cartesian_product_row_major). Qed.
+
+(* parallel_collect / parallel_into_collect: whatever the chunking, slot i holds map_op(item i) *)
+Theorem C15_parallel_collect_is_map : forall (T R : Type) (f : T -> R) (t : ptree T),
+  parallel_collect f t = map f (pflatten t).
+Proof. exact (@parallel_collect_eq_map). Qed.
+
+(* fold_reduce: when the fold step is `reduce acc (g x)`, reduce is associative and identity a right unit, every schedule equals
+   the sequential left fold (exactly) *)
+Theorem C15_fold_reduce_any_schedule : forall (T R : Type) (identity : R) (fold : R -> T -> R) (reduce : R -> R -> R) (g : T -> R),
+  (forall a b c, reduce (reduce a b) c = reduce a (reduce b c)) ->
+  (forall a, reduce a identity = a) ->
+  forall t : ptree T,
+  (forall acc x, In x (pflatten t) -> fold acc x = reduce acc (g x)) ->
+  fold_reduce identity fold reduce t = fold_left fold (pflatten t) identity.
+Proof. exact (@fold_reduce_any_schedule). Qed.
+
+Theorem C15_map_reduce_any_schedule : forall (T R : Type) (map_op : T -> R) (default : R) (reduce : R -> R -> R),
+  (forall a b c, reduce (reduce a b) c = reduce a (reduce b c)) ->
+  (forall a, reduce a default = a) ->
+  forall t : ptree T,
+  map_reduce map_op default reduce t = fold_left (fun acc x => reduce acc (map_op x)) (pflatten t) default.
+Proof. exact (@map_reduce_any_schedule). Qed.
+
+(* the first model (Reduce.v) is the instance fold_reduce None step best *)
+Theorem C15_first_model_is_fold_reduce : forall C lt (t : tree C),
+  run_tree C lt t = fold_reduce None (step C lt) (best C lt) (ptree_of t) /\ flatten C t = pflatten (ptree_of t).
+Proof. exact run_tree_is_fold_reduce. Qed.
+
+(* ---------- InsertionResult::choose_best_result as written ---------- *)
+Theorem C15_choose_best_result_assoc : forall (S C : Type) (cost : S -> C) (lt : C -> C -> bool),
+  (forall a b c, lt a b = true -> lt b c = true -> lt a c = true) ->
+  (forall a b c, lt a b = false -> lt b c = false -> lt a c = false) ->
+  forall a b c : result S,
+  choose_best_result S C cost lt (choose_best_result S C cost lt a b) c =
+  choose_best_result S C cost lt a (choose_best_result S C cost lt b c).
+Proof. exact choose_assoc. Qed.
+
+Theorem C15_choose_best_result_right_unit : forall (S C : Type) (cost : S -> C) (lt : C -> C -> bool) (a : result S),
+  choose_best_result S C cost lt a (make_failure S) = a.
+Proof. exact choose_id_r. Qed.
+
+(* partial: make_failure() is a left unit except for a failure with the unknown code, which it absorbs (job / stopped lost) *)
+Theorem C15_choose_best_result_left_unit_partial : forall (S C : Type) (cost : S -> C) (lt : C -> C -> bool) (a : result S),
+  choose_best_result S C cost lt (make_failure S) a = a \/
+  (exists f, a = RFailure f /\ f_code f = UNKNOWN /\ choose_best_result S C cost lt (make_failure S) a = make_failure S).
+Proof. exact choose_id_l. Qed.
+
+Theorem C15_choose_left_unit_drops_job_refuted :
+  exists a : result unit, choose_best_result unit Z (fun _ => 0) Z.ltb (make_failure unit) a <> a.
+Proof. exact choose_left_unit_drops_job. Qed.
+
+(* commutative up to verdict class and cost equivalence ... *)
+Theorem C15_choose_best_result_comm_cost : forall (S C : Type) (cost : S -> C) (lt : C -> C -> bool),
+  (forall a, lt a a = false) ->
+  (forall a b c, lt a b = true -> lt b c = true -> lt a c = true) ->
+  forall a b : result S,
+  res_equiv S C cost lt (choose_best_result S C cost lt a b) (choose_best_result S C cost lt b a).
+Proof. exact choose_comm_cost. Qed.
+
+(* ... but not exactly: of two failures with concrete codes the RIGHT one is kept (observation; the property speaks about costs) *)
+Theorem C15_choose_failures_not_commutative_refuted :
+  exists a b : result unit, choose_best_result unit Z (fun _ => 0) Z.ltb a b <> choose_best_result unit Z (fun _ => 0) Z.ltb b a.
+Proof. exact choose_failures_not_commutative. Qed.
+
+(* ---------- eval_job_insertion_in_route as the fold step ---------- *)
+(* for a pair whose scan honours best_known_cost and whose route-level estimate is a lower bound of its full cost, the step
+   (with its three shortcuts) is the reducer applied to the pair's own result *)
+Theorem C15_eval_step_is_choose : forall (S C : Type) (cost : S -> C) (lt : C -> C -> bool),
+  (forall a b c, lt a b = true -> lt b c = true -> lt a c = true) ->
+  forall (acc : result S) (c : cell S C),
+  cell_ok S C cost lt c ->
+  eval_step S C cost lt acc c = choose_best_result S C cost lt acc (full_of S C c).
+Proof. exact eval_step_is_choose. Qed.
+
+(* ---------- PositionInsertionEvaluator::evaluate_all over the routes x jobs grid ---------- *)
+(* every schedule returns EXACTLY (success with payload, or kept failure) the left-to-right reduction of the individually
+   evaluated pairs in row-major order *)
+Theorem C15_evaluate_all_exact : forall (S C : Type) (cost : S -> C) (lt : C -> C -> bool),
+  (forall a b c, lt a b = true -> lt b c = true -> lt a c = true) ->
+  (forall a b c, lt a b = false -> lt b c = false -> lt a c = false) ->
+  forall (Rt Jb : Type) (ev : Rt -> Jb -> cell S C) (routes : list Rt) (jobs : list Jb) (t : ptree (Rt * Jb)),
+  grid_ok S C cost lt Rt Jb ev routes jobs ->
+  pflatten t = cartesian_product routes jobs ->
+  evaluate_all S C cost lt Rt Jb ev t = best_of_all S C cost lt Rt Jb ev routes jobs.
+Proof. exact evaluate_all_exact. Qed.
+
+(* ... which is also what the nested sequential double loop (for route { for job { step } }) returns *)
+Theorem C15_evaluate_all_eq_nested_loop : forall (S C : Type) (cost : S -> C) (lt : C -> C -> bool),
+  (forall a b c, lt a b = true -> lt b c = true -> lt a c = true) ->
+  (forall a b c, lt a b = false -> lt b c = false -> lt a c = false) ->
+  forall (Rt Jb : Type) (ev : Rt -> Jb -> cell S C) (routes : list Rt) (jobs : list Jb) (t : ptree (Rt * Jb)),
+  grid_ok S C cost lt Rt Jb ev routes jobs ->
+  pflatten t = cartesian_product routes jobs ->
+  evaluate_all S C cost lt Rt Jb ev t = nested_loop S C cost lt Rt Jb ev routes jobs.
+Proof. exact evaluate_all_eq_nested_loop. Qed.
+
+(* the result is a success of minimal cost over ALL pairs; if nothing succeeds, the failure kept is determined: the last failure
+   with a concrete code in row-major order, else make_failure() *)
+Theorem C15_evaluate_all_minimal : forall (S C : Type) (cost : S -> C) (lt : C -> C -> bool),
+  (forall a, lt a a = false) ->
+  (forall a b c, lt a b = true -> lt b c = true -> lt a c = true) ->
+  (forall a b c, lt a b = false -> lt b c = false -> lt a c = false) ->
+  forall (Rt Jb : Type) (ev : Rt -> Jb -> cell S C) (routes : list Rt) (jobs : list Jb) (t : ptree (Rt * Jb)),
+  grid_ok S C cost lt Rt Jb ev routes jobs ->
+  pflatten t = cartesian_product routes jobs ->
+  match evaluate_all S C cost lt Rt Jb ev t with
+  | RSuccess s =>
+      (exists r j, In r routes /\ In j jobs /\ full_of S C (ev r j) = RSuccess s) /\
+      (forall r j s', In r routes -> In j jobs -> full_of S C (ev r j) = RSuccess s' -> lt (cost s') (cost s) = false)
+  | RFailure f =>
+      (forall r j s', In r routes -> In j jobs -> full_of S C (ev r j) <> RSuccess s') /\
+      f = kept_failure S (map (fun p : Rt * Jb => full_of S C (ev (fst p) (snd p))) (cartesian_product routes jobs))
+  end.
+Proof. exact evaluate_all_minimal. Qed.
+
+Theorem C15_evaluate_all_failure_iff : forall (S C : Type) (cost : S -> C) (lt : C -> C -> bool),
+  (forall a, lt a a = false) ->
+  (forall a b c, lt a b = true -> lt b c = true -> lt a c = true) ->
+  (forall a b c, lt a b = false -> lt b c = false -> lt a c = false) ->
+  forall (Rt Jb : Type) (ev : Rt -> Jb -> cell S C) (routes : list Rt) (jobs : list Jb) (t : ptree (Rt * Jb)),
+  grid_ok S C cost lt Rt Jb ev routes jobs ->
+  pflatten t = cartesian_product routes jobs ->
+  ((exists f, evaluate_all S C cost lt Rt Jb ev t = RFailure f) <->
+   (forall r j, In r routes -> In j jobs -> exists f, full_of S C (ev r j) = RFailure f)).
+Proof. exact evaluate_all_failure_iff. Qed.
+
+(* ---------- evaluate_and_collect_all ---------- *)
+Theorem C15_collect_split_independent : forall (S C : Type) (cost : S -> C) (lt : C -> C -> bool)
+  (Rt Jb : Type) (ev : Rt -> Jb -> cell S C) (b : bool) (routes : list Rt) (jobs : list Jb) (tr tr' : ptree Rt) (tj tj' : ptree Jb),
+  pflatten tr = pflatten tr' -> pflatten tj = pflatten tj' ->
+  evaluate_and_collect_all S C cost lt Rt Jb ev b routes jobs tr tj =
+  evaluate_and_collect_all S C cost lt Rt Jb ev b routes jobs tr' tj'.
+Proof. exact collect_split_independent. Qed.
+
+(* branch `else` (per route a sequential fold over the jobs): the minimum of the collected vector IS evaluate_all's result *)
+Theorem C15_collect_by_route_reduced : forall (S C : Type) (cost : S -> C) (lt : C -> C -> bool),
+  (forall a b c, lt a b = true -> lt b c = true -> lt a c = true) ->
+  (forall a b c, lt a b = false -> lt b c = false -> lt a c = false) ->
+  forall (Rt Jb : Type) (ev : Rt -> Jb -> cell S C) (routes : list Rt) (jobs : list Jb) (tr : ptree Rt) (t : ptree (Rt * Jb)),
+  grid_ok S C cost lt Rt Jb ev routes jobs ->
+  pflatten tr = routes ->
+  pflatten t = cartesian_product routes jobs ->
+  best_of S C cost lt (collect_by_route S C cost lt Rt Jb ev jobs tr) = evaluate_all S C cost lt Rt Jb ev t.
+Proof. exact collect_by_route_reduced. Qed.
+
+(* branch `is_fold_jobs` (per job a sequential fold over the routes): same verdict class and an equivalent cost *)
+Theorem C15_collect_by_job_reduced : forall (S C : Type) (cost : S -> C) (lt : C -> C -> bool),
+  (forall a, lt a a = false) ->
+  (forall a b c, lt a b = true -> lt b c = true -> lt a c = true) ->
+  (forall a b c, lt a b = false -> lt b c = false -> lt a c = false) ->
+  forall (Rt Jb : Type) (ev : Rt -> Jb -> cell S C) (routes : list Rt) (jobs : list Jb) (tj : ptree Jb) (t : ptree (Rt * Jb)),
+  grid_ok S C cost lt Rt Jb ev routes jobs ->
+  pflatten tj = jobs ->
+  pflatten t = cartesian_product routes jobs ->
+  res_equiv S C cost lt (best_of S C cost lt (collect_by_job S C cost lt Rt Jb ev routes tj)) (evaluate_all S C cost lt Rt Jb ev t).
+Proof. exact collect_by_job_reduced. Qed.
+
+(* SkipBestInsertionEvaluator: the entry picked from the sorted collected vector is a function of the inputs only *)
+Theorem C15_skip_best_pick_split_independent : forall (S C : Type) (cost : S -> C) (lt : C -> C -> bool)
+  (Rt Jb : Type) (ev : Rt -> Jb -> cell S C) (k : nat) (b : bool) (routes : list Rt) (jobs : list Jb)
+  (tr tr' : ptree Rt) (tj tj' : ptree Jb),
+  pflatten tr = pflatten tr' -> pflatten tj = pflatten tj' ->
+  skip_best_pick S C cost lt k (evaluate_and_collect_all S C cost lt Rt Jb ev b routes jobs tr tj) =
+  skip_best_pick S C cost lt k (evaluate_and_collect_all S C cost lt Rt Jb ev b routes jobs tr' tj').
+Proof. exact skip_best_pick_split_independent. Qed.
+
+(* ---------- the lower-bound hypothesis on the concrete evaluator model (Model/Core.v) ---------- *)
+(* the scan started from best_known_cost = a finds exactly the full result when that is cheaper than a, a failure otherwise *)
+Theorem C15_concrete_scan_respects_known : forall (dur : Z -> Z -> Z) (est : list act -> nat -> act -> Z)
+  (v : vehicle) (closed : bool) (t : list act) (j : single) (rc : Z),
+  respects_known csucc Z ccost Z.ltb (fun known : option Z => result_of_sctx j (analyze_known dur est v closed t j rc known)).
+Proof. exact concrete_scan_respects_known. Qed.
+
+(* distance (or duration) objective: non-negative entries + triangle inequality => every activity-level estimate is >= 0 *)
+Theorem C15_leg_estimate_nonneg : forall (m : Z -> Z -> Z),
+  (forall a b, 0 <= m a b) -> (forall a b c, m a c <= m a b + m b c) ->
+  forall t idx x, 0 <= leg_estimate m t idx x.
+Proof. exact leg_estimate_nonneg. Qed.
+
+(* hence the concrete pair honours best_known_cost and its route-level estimate is a lower bound of its full cost *)
+Theorem C15_dist_cell_ok : forall (dur dist : Z -> Z -> Z) (r : route_desc) (j : single),
+  (forall a b, 0 <= dist a b) ->
+  (forall a b c, dist a c <= dist a b + dist b c) ->
+  cell_ok csucc Z ccost Z.ltb (dist_cell dur dist r j).
+Proof. exact dist_cell_ok. Qed.
+
+(* corollary: the concrete evaluator's result over any routes x jobs grid is split-independent (exactly) and of minimal cost *)
+Theorem C15_dist_evaluate_all_split_independent : forall (dur dist : Z -> Z -> Z) (routes : list route_desc) (jobs : list single)
+  (t : ptree (route_desc * single)),
+  (forall a b, 0 <= dist a b) ->
+  (forall a b c, dist a c <= dist a b + dist b c) ->
+  pflatten t = cartesian_product routes jobs ->
+  evaluate_all csucc Z ccost Z.ltb route_desc single (dist_cell dur dist) t =
+  best_of_all csucc Z ccost Z.ltb route_desc single (dist_cell dur dist) routes jobs.
+Proof. exact dist_evaluate_all_split_independent. Qed.
+
+Theorem C15_dist_evaluate_all_minimal : forall (dur dist : Z -> Z -> Z) (routes : list route_desc) (jobs : list single)
+  (t : ptree (route_desc * single)),
+  (forall a b, 0 <= dist a b) ->
+  (forall a b c, dist a c <= dist a b + dist b c) ->
+  pflatten t = cartesian_product routes jobs ->
+  match evaluate_all csucc Z ccost Z.ltb route_desc single (dist_cell dur dist) t with
+  | RSuccess s =>
+      (exists r j, In r routes /\ In j jobs /\ full_of csucc Z (dist_cell dur dist r j) = RSuccess s) /\
+      (forall r j s', In r routes -> In j jobs -> full_of csucc Z (dist_cell dur dist r j) = RSuccess s' -> ccost s <= ccost s')
+  | RFailure _ =>
+      forall r j s', In r routes -> In j jobs -> full_of csucc Z (dist_cell dur dist r j) <> RSuccess s'
+  end.
+Proof. exact dist_evaluate_all_minimal. Qed.
+
+(* the concrete pair is Core's eval_single_gen (the function compared with the real evaluator by the C06 / C20 checks) *)
+Theorem C15_concrete_cell_matches_core : forall (dur : Z -> Z -> Z) (est : route_desc -> list act -> nat -> act -> Z)
+  (rcf : route_desc -> Z) (r : route_desc) (j : single),
+  match eval_single_gen dur (est r) (rcf r) (r_veh r) (r_shift_start r) (r_closed r) (r_tour r) j PAny,
+        full_of csucc Z (concrete_cell dur est rcf r j) with
+  | ESuccess idx p c, RSuccess s => s = (c, idx, p)
+  | EFailure code st, RFailure f => f_code f = code /\ f_stopped f = st /\ f_job f = Some (s_id j)
+  | _, _ => False
+  end.
+Proof. exact concrete_cell_matches_core. Qed.
+
+(* complementary witness (finding C15-F1 on the concrete model): a non-negative matrix that violates the triangle inequality
+   gives a negative activity-level estimate, and then the sequential scan (-80) and a two-chunk schedule (-98) disagree *)
+Theorem C15_nonmetric_estimate_negative_refuted :
+  (forall a b, 0 <= nm_dist a b) /\
+  leg_estimate nm_dist (r_tour nm_route) 0 (mkAct 7 2 0 0 INF dzero 0 0) = -98.
+Proof. exact nonmetric_estimate_negative. Qed.
+
+Theorem C15_nonmetric_dist_split_dependent_refuted :
+  let ev := dist_cell (fun _ _ => 0) nm_dist in
+  let jobs := [nm_job 8 3; nm_job 7 2] in
+  let prod := cartesian_product [nm_route] jobs in
+  exists c1 c2,
+    evaluate_all csucc Z ccost Z.ltb route_desc single ev (PLeaf prod) = RSuccess c1 /\
+    evaluate_all csucc Z ccost Z.ltb route_desc single ev (PNode (PLeaf (firstn 1 prod)) (PLeaf (skipn 1 prod))) = RSuccess c2 /\
+    ccost c1 = -80 /\ ccost c2 = -98.
+Proof. exact nonmetric_dist_split_dependent. Qed.
+
+(* ---------- pool layout: thread_pool_execute / search_many ---------- *)
+(* whatever the number of pools (none configured, or n >= 1) and whatever the chunking, result i is op(solution i) *)
+Theorem C15_search_many_values : forall (A R : Type) (pools : option nat) (op : A -> R) (sols : list A) (t : ptree (nat * A)),
+  pools <> Some 0%nat -> pflatten t = enumerate sols ->
+  values (search_many pools op t) = Some (map op sols).
+Proof. exact (@search_many_values). Qed.
+
+Theorem C15_search_many_pool_independent : forall (A R : Type) (p1 p2 : option nat) (op : A -> R) (sols : list A)
+  (t1 t2 : ptree (nat * A)),
+  p1 <> Some 0%nat -> p2 <> Some 0%nat -> pflatten t1 = enumerate sols -> pflatten t2 = enumerate sols ->
+  values (search_many p1 op t1) = values (search_many p2 op t2).
+Proof. exact (@search_many_pool_independent). Qed.
+
+(* every task lands on an existing pool *)
+Theorem C15_search_many_pools_exist : forall (A R : Type) (n : nat) (op : A -> R) (t : ptree (nat * A)),
+  Forall (fun p => (p < S n)%nat) (pools_used (search_many (Some (S n)) op t)).
+Proof. exact (@search_many_pools_exist). Qed.
+
+(* Parallelism::new(0, _) (an empty vector of pools): `idx % 0` — every dispatched task panics *)
+Theorem C15_zero_pools_panics_refuted : forall (A R : Type) (op : A -> R) (t : ptree (nat * A)),
+  pflatten t <> [] -> values (search_many (Some 0%nat) op t) = None.
+Proof. exact (@search_many_zero_pools_panics). Qed.
+
+(* ---------- decomposition search ---------- *)
+(* the groups of route indices partition 0..n-1 (no route lost, none duplicated), for all proximity lists and all drawn group
+   sizes >= 1; the number of pools does not occur in the function *)
+Theorem C15_decompose_partition : forall (proximity : nat -> list nat) (size : nat -> nat),
+  (forall o, (1 <= size o)%nat) ->
+  forall n : nat,
+  (forall o i, In i (proximity o) -> (i < n)%nat) ->
+  NoDup (concat (decompose proximity size n)) /\
+  (forall i, In i (concat (decompose proximity size n)) <-> (i < n)%nat).
+Proof. exact decompose_partition. Qed.
+
+(* refine + merge keeps every route exactly once when the inner search returns each group's own vehicles *)
+Theorem C15_refine_decomposed_keeps_routes : forall (Rt : Type) (ids : Rt -> nat) (refine : list nat -> list Rt)
+  (proximity : nat -> list nat) (size : nat -> nat) (n : nat) (t : ptree (list nat)),
+  (forall o, (1 <= size o)%nat) ->
+  (forall o i, In i (proximity o) -> (i < n)%nat) ->
+  (forall g, Permutation (map ids (refine g)) g) ->
+  pflatten t = decompose proximity size n ->
+  Permutation (map ids (refine_decomposed refine t)) (seq 0 n).
+Proof. exact refine_decomposed_keeps_routes. Qed.
+
+(* keeping only as many groups as there are pools loses routes (what the partition theorem excludes) *)
+Theorem C15_truncated_groups_lose_routes_refuted :
+  exists proximity size n p, ~ (forall i, (i < n)%nat -> In i (concat (firstn p (decompose proximity size n)))).
+Proof. exact truncated_groups_lose_routes. Qed.
+
+(* ---------- the order used by the correspondence satisfies the hypotheses ---------- *)
+Theorem C15_vlt_strict_weak_order :
+  (forall a, vlt a a = false) /\
+  (forall a b c, vlt a b = true -> vlt b c = true -> vlt a c = true) /\
+  (forall a b c, vlt a b = false -> vlt b c = false -> vlt a c = false).
+Proof. exact (conj vlt_irrefl (conj vlt_trans vlt_negtrans)). Qed.
+
+(* ---------- non-vacuity ---------- *)
+Theorem C15_nonvacuous_grid :
+  grid_ok vsucc (list Z) fst vlt nat nat ex_grid [0%nat; 1%nat] [0%nat; 1%nat] /\
+  evaluate_all vsucc (list Z) fst vlt nat nat ex_grid (PLeaf (cartesian_product [0%nat; 1%nat] [0%nat; 1%nat])) = RSuccess ([4], 2).
+Proof. exact grid_example. Qed.
+
+Theorem C15_nonvacuous_metric :
+  (forall a b, 0 <= abs_dist a b) /\ (forall a b c, abs_dist a c <= abs_dist a b + abs_dist b c) /\
+  exists s, evaluate_all csucc Z ccost Z.ltb route_desc single (dist_cell (fun _ _ => 0) abs_dist)
+              (PNode (PLeaf [(nm_route, nm_job 8 3)]) (PLeaf [(nm_route, nm_job 7 2)])) = RSuccess s /\ ccost s = 2.
+Proof. exact metric_example. Qed.
